@@ -47,7 +47,8 @@ def q(x):
 
 
 TOP = {"kepler": "K", "com": "C", "jump": "J", "kick": "V", "lf_drift": "lfD", "lf_kick": "lfV", "sei_H": "seiH", "sei_phi": "seiP",
-       "j_drift": "jD", "j_kick": "jV", "m_kick": "mV", "m_jump": "mJ", "m_com": "mC", "m_kepler": "mK", "m_enc": "mE"}
+       "j_drift": "jD", "j_kick": "jV", "m_kick": "mV", "m_jump": "mJ", "m_com": "mC", "m_kepler": "mK", "m_enc": "mE",
+       "w5_kepler": "K", "w5_com": "C", "w5_jump": "J", "w5_kick": "V"}
 FOREIGN = ("col_", "crit_", "serve_", "ce_sync", "fin_sync", "hb_", "tr_")      # events of other specifications (collisions, server protocol)
 IGNORE = {"step_b", "step", "sync_b", "sync_e", "ksolve", "j_toint", "check_exit", "int_begin", "int_end"}
 
@@ -74,10 +75,10 @@ def flatten(raw, inner_out, cfgname):
         elif name in TOP:
             ops.append([TOP[name], q(a[0] / a[1]), 0])
             i += 1
-        elif name == "from_in" or name == "m_to_dh":
+        elif name == "from_in" or name == "m_to_dh" or name == "w5_to_dh":
             ops.append(["FI", 0, 0])
             i += 1
-        elif name == "to_in" or name == "m_to_in":
+        elif name == "to_in" or name == "m_to_in" or name == "w5_to_in":
             ops.append(["TI", 0, 0])
             i += 1
         elif name == "saba_corr":
@@ -217,6 +218,10 @@ def build(cfg, rng):
         sim.ri_janus.order = cfg["order"]
     elif fam == "sei":
         sim.ri_sei.OMEGA = 1.0
+    elif fam == "whfast512":
+        sim.ri_whfast512.gr_potential = cfg["tcorr"]
+        sim.ri_whfast512.keep_unsynchronized = 1 if cfg["keep"] else 0
+        sim.exact_finish_time = 0
     if cfg.get("var"):
         v = sim.add_variation()
         v.particles[1].x = 1e-3          # a non-trivial tangent vector
@@ -253,6 +258,16 @@ def digests(sim, cfg, table):
                 cd = "unallocated"      # allocated (zero-filled) but never computed: same abstract state as no buffer
         else:
             cd = "unallocated"
+    elif fam == "whfast512":
+        w = sim.ri_whfast512
+        if w._N_allocated and bool(w._p_jh):
+            h = hashlib.sha256(ctypes.string_at(ctypes.cast(w._p_jh, ctypes.c_void_p).value, 7 * 64))
+            for k in range(4):
+                p = w._p_jh0[k]
+                h.update(memoryview((ctypes.c_double * 7)(p.x, p.y, p.z, p.vx, p.vy, p.vz, p.m)))
+            cd = h.hexdigest()
+        else:
+            cd = "unallocated"
     elif fam == "mercurius":
         m = sim.ri_mercurius
         cd = pd + repr((m._com_pos.x, m._com_pos.y, m._com_pos.z, m._com_vel.x, m._com_vel.y, m._com_vel.z))
@@ -271,6 +286,8 @@ def is_sync(sim, cfg):
         return bool(sim.ri_eos.is_synchronized)
     if fam == "mercurius":
         return bool(sim.ri_mercurius.is_synchronized)
+    if fam == "whfast512":
+        return bool(sim.ri_whfast512.is_synchronized)
     return True
 
 
@@ -377,6 +394,20 @@ def main():
                         calls += ["sync", "sync"]
                     ev += run_calls(sim, cfg, calls, table, inner_out, srng, tmpdir, name)
                 fh.write(json.dumps({"cfg": cfg, "name": name, "bitwise": True, "cache0": c0, "parts0": p0, "events": ev, "calls": "bitwise"}) + "\n")
+            # (c') WHFast512 has no safe mode: synchronising after every step is the reference
+            if cfg["fam"] == "whfast512" and not cfg["keep"]:
+                sa = build(cfg, random.Random(seed))
+                ub = build(cfg, random.Random(seed))
+                for _ in range(40):
+                    sa.step()
+                    sa.synchronize()
+                    ub.step()
+                ub.synchronize()
+                d = 0.0
+                for i in range(sa.N):
+                    a, b = sa.particles[i], ub.particles[i]
+                    d = max(d, abs(a.x - b.x), abs(a.y - b.y), abs(a.z - b.z))
+                numeric.append({"cfg": name, "fam": cfg["fam"], "diff": d, "ref": None})
             # (c) sampled numeric clause (A5): safe mode vs safe mode off + synchronise at the end
             if cfg["fam"] in ("whfast", "saba", "mercurius", "eos") and not cfg["safe"] and not cfg["keep"]:
                 sa = build(dict(cfg, safe=True), random.Random(seed))
